@@ -12,6 +12,8 @@ stdout: last line = {"jobs": [{"n_atoms": N, "box_seen": [...], "index_sets": {.
 Observable values are lists of floats (float32/float64 widened exactly), ints or strings; an exception inside an
 observable is reported as {"err": class name}.
 
+"periodic_flag": false on a job with a box = every observable is called with periodic=False although the Trajectory
+carries a unit cell; "observables_nojitter" = names not evaluated on the jitter variants (slow reference paths).
 MULTI-FRAME jobs ("multi": {"n_frames": m, "boxes": [3x3 per frame] | null}): every variant becomes ONE m-frame
 Trajectory in which EACH FRAME carries its own transformation of the same structure (rigid: variant["per_frame"][f] =
 {"q","t"}; lattice: shifts drawn from RandomState(seed + 7919 f) in the cell of frame f, "whole_per_frame"[f]; jitter:
@@ -87,8 +89,24 @@ def observe(md, make_t, make_ref, idx, job, names):
         t = make_t()
         ref_t = make_ref()
         periodic = t.unitcell_vectors is not None
+        if job.get("periodic_flag") is not None:
+            # the trajectory CARRIES a cell but the caller asks for plain Euclidean geometry (or the reverse)
+            periodic = bool(job["periodic_flag"])
         try:
-            if name == "distances":
+            if name.startswith("tors:"):
+                # named torsion helper with explicit flags: "tors:<phi|psi|omega|chi1..5>:<periodic T|F>:<opt T|F>"
+                _t, which, pf, of = name.split(":")
+                ind, val = getattr(md, "compute_" + which)(t, periodic=(pf == "T"), opt=(of == "T"))
+                v = {"idx": np.asarray(ind).astype(int).tolist(), "v": fl(val)}
+            elif name.startswith("contacts:"):
+                scheme = name.split(":", 1)[1]
+                sel = [r.index for r in t.topology.residues if r.name != "GLY"]
+                prs = [[a, b] for i, a in enumerate(sel) for b in sel[i + 3:]]
+                d, rp = md.compute_contacts(t, contacts=prs, scheme=scheme, periodic=periodic)
+                v = {"d": fl(d), "pairs": [int(x) for x in rp.ravel()][:4000]}
+            elif name == "wernet_nilsson":
+                v = sorted([int(a), int(b), int(c)] for a, b, c in md.wernet_nilsson(t, periodic=periodic)[0])
+            elif name == "distances":
                 v = fl(md.compute_distances(t, idx["pairs"], periodic=periodic))
             elif name == "displacements_norm":
                 d = md.compute_displacements(t, idx["pairs"], periodic=periodic)
@@ -316,10 +334,10 @@ def main():
             else:
                 raise RuntimeError("unknown variant " + kind)
             x32 = x.astype(np.float32).astype(np.float64)
+            names = [o for o in job["observables"] if not (kind == "jitter" and o in job.get("observables_nojitter", []))]
             variants.append(dict(extra, maxabs=float(np.abs(x32).max()),
                                  exact=bool(np.all(x32 == x)),
-                                 obs=observe(md, (lambda x=x: make(x)), (lambda xr=xr: make(xr)), idx, job,
-                                             job["observables"])))
+                                 obs=observe(md, (lambda x=x: make(x)), (lambda xr=xr: make(xr)), idx, job, names)))
         res.append({"n_atoms": n, "box_seen": None if seen is None else fl(seen),
                     "index_sets": {k: np.asarray(a).tolist() for k, a in idx.items()},
                     "xyz0": fl(xyz0.astype(np.float32)), "ref0": fl(ref0.astype(np.float32)),
